@@ -8,6 +8,7 @@ mod node;
 
 mod cluster;
 mod comp_mempool;
+mod comp_msync;
 mod comp_pure;
 mod comp_sender;
 mod comp_store;
@@ -73,6 +74,7 @@ fn main() {
             "hostile" => scen_hostile::run(&c, seed, &p).print(),
             "puppet" => scen_puppet::run(&c, seed, &p).print(),
             "c11" | "c12" => comp_mempool::run(&w, &c, seed, &p).print(),
+            "c13s" => comp_msync::run(&c, seed, &p).print(),
             "c14" => comp_sender::run(&c, seed, &p).print(),
             "c16" => comp_store::run(&c, seed, &p).print(),
             "c17" | "c18" | "c20" | "c09" | "c19" | "c04" => comp_pure::run(&w, &c, seed, &p).print(),
